@@ -44,6 +44,8 @@ def gen(tier, seed, index):
     if index % 20 == 13:
         # a component entered through one member while another member is the only user of an outside nonterminal
         return G.gen_private_dependency_spec(rng, wdomain='log' if grid else 'real'), dict(cls='mixed', grid=grid, forced=['scc-member-with-private-dependency'])
+    if index % 20 == 9:
+        return G.gen_chain_spec(rng, wdomain='log' if grid else 'real'), dict(cls='linear', grid=grid, forced=['long-chain'])
     if index % 20 == 3:
         # matrix closure with a sparsely patterned base factor: successive iterates change the size of their storage
         return G.gen_matrix_closure_spec(rng), dict(cls='linear', grid=False, forced=['patterned-base-dense-recursion'], typed=True)
